@@ -84,15 +84,16 @@ class Ctx:
             self._graphs[key] = g
         return g
 
-    def arms(self, path, subst=None, **kw):
+    def arms(self, path, subst=None, entry_facts=None, **kw):
         """[(type-test assignment, Interp)] for the function, inlined"""
-        key = (path, repr(sorted((subst or {}).items(), key=lambda kv: kv[0])) if subst else "", repr(sorted(kw.items())))
+        key = (path, repr(sorted((subst or {}).items(), key=lambda kv: kv[0])) if subst else "", repr(sorted(kw.items())),
+               repr(sorted(entry_facts, key=repr)) if entry_facts else "")
         r = self._arms.get(key)
         if r is None:
             g = self.graph(path, subst, **kw)
             if g is None:
                 return None
-            r = analyze_arms(g)
+            r = analyze_arms(g, entry_facts=entry_facts)
             self._arms[key] = r
         return r
 
@@ -132,7 +133,7 @@ class Ctx:
 def arm_name(tt):
     if not tt:
         return "any"
-    return ",".join("%s=%s" % (k.split("::")[-1].replace(">", ""), "erased" if v else "typed") for k, v in sorted(tt.items()))
+    return "+".join("erased" if v else "typed" for k, v in sorted(tt.items()))
 
 
 def is_len_path(p):
